@@ -64,6 +64,9 @@ def run(ctx, rep) -> None:
     with ProcessPoolExecutor(16) as ex:
         ktraces = list(ex.map(D.run_scenario, kscs, chunksize=4))
     kv = D.judge_ticks(ktraces, rep)
+    from vf.evidence import MachineryFailure
+    if any(not any(e['ev'] == 'tick' for e in t['events']) for t in ktraces if not t['stall']):
+        raise MachineryFailure('a tick scenario without a single run of the timer: the operator of that run did not work')
     rep.evaluations += len(ktraces); rep.traces += len(ktraces)
     for t in ktraces:
         if any(e['ev'] == 'released' for e in t['events']):
